@@ -431,7 +431,7 @@ func BroadcastStrides(destShape, srcShape Shape, destStrides, srcStrides []int) 
 	dims := len(destShape)
 	start := dims - len(srcShape)
 
-	if destShape.IsVector() && srcShape.IsVector() {
+	if destShape.IsVector() && srcShape.IsVector() && !(len(destShape) == len(srcShape) && len(srcStrides) == len(srcShape) && destShape.Eq(srcShape)) {
 		return []int{srcStrides[0]}, nil
 	}
 
